@@ -96,7 +96,15 @@ def check_case(ctx, fl, c, where):
         return
     # link 2 and end-to-end
     for cls in CLS:
-        dz = getattr(fl, cls)(res)
+        # every other case on a long-lived defuzzifier whose resolution is re-assigned (nothing computed for an earlier
+        # resolution or range may survive), the others on a fresh object
+        pool = check_case.__dict__.setdefault("pool", {})
+        pool["n"] = pool.get("n", 0) + 1
+        if pool["n"] % 2 and cls in pool:
+            dz = pool[cls]
+            dz.resolution = res
+        else:
+            dz = pool[cls] = getattr(fl, cls)(res)
         got = float(np.asarray(dz.defuzzify(agg, lo, hi)))
         ctx.count()
         ok, red = own_reduction_ok(fl, cls, agg, lo, hi, res, got)
